@@ -38,6 +38,11 @@ CLAIMED.update({
    note='Per-originator attribution of DELIVERED messages is not expressible (messages carry no origin): proved is registered-on-some-peer plus the per-emitter statements. Hypothesis order_ok (a detector exists only for a registered type) is discharged on every run by the schedule audit of the driver. ' + FTB,
    technique='Coq proof (generic frame invariant preserved by every system and command; induction over global traces) + per-frame differential correspondence + receive-tap oracle',
    design='5/C04'),
+ 'C08': dict(
+   text='Coq theorems over the frame-level model, in which every partial operation of the Rust code (unwrap, world.entity, entity_mut, Commands insert on a dead entity, add_child) is an explicit panic outcome. Local, for EVERY peer state, EVERY executable order of Update (application systems issuing despawns anywhere) and EVERY oracle: a frame never panics on a dead/unknown entity, a missing parent or an unregistered type; the only panic left is Bevy\'s self-parent check, excluded by a local invariant (C08_frame_no_panic); ignored messages leave the receiver unchanged. Global, over ALL traces of any number of peers (every interleaving, order, oracle — even untruthful ones —, joins, promotions), restricting only the application (fresh ids, mark once, links between entities standing for different uuids, application systems only despawn): no peer ever panics and no self-parent link is ever emitted (C08_no_panic). The literal statement without the different-uuids condition is refuted IN THE MODEL by oracles no real session produces (machine-checked remark).' + FNOTE + ' Oracle: every update() of every peer runs under catch_unwind; a cross-product generator crosses every message kind with every receiver condition (despawned directly or through application systems of the same frame, on the other side at the same moment, type registered on one side only).',
+   note='The defects S3 (bin_to_reflect unwrap), S4 (world.entity / entity_mut on a dead entity) and S5 (Commands insert after a same-flush despawn) were found by this check and repaired by fix: commits; the model follows the repaired code. Open: the full statement needs the uniqueness half of C01 (no two live replicas of one uuid) under truthful oracles. ' + FTB,
+   technique='Coq proof (exact characterisation of every panic site; invariant over all global traces) + per-frame differential correspondence with panic prediction + catch_unwind oracle on a cross-product generator',
+   design='5/C08'),
  'C10': dict(
    text='Coq theorems over the event-level value model (Abs/Values.v): while one peer alone writes the key — any write sequence, every interleaving of all peers events, any number of clients, joins — every value any peer shows was written and the sequence any other peer displays (third peers behind the relay included) is a subsequence of the written values in order (C10_single_writer), ending at quiescence with the last one (C10_ends_with_last); the host relay loses nothing. The order claim with the HOST as writer and a join between its detector run and its send is refuted with a machine-checked witness (known finding S21).' + FNOTE + ' The event-level model replays every real trace (see C02).',
    note='Layer A is an abstraction by hand (see C02). ' + FTB,
